@@ -209,9 +209,9 @@ func (s *setSubj[T]) ModelApply(op Op) {
 	case "Clear", "RemoveOwn":
 		s.m = nil
 	case "AddOwn":
-	case "RemoveOwnTail": // (for a hash set Step has already reduced the model to the member the container kept)
+	case "RemoveOwnTail":
 		if len(s.m) > 0 {
-			s.m = []T{s.m[op.A[0]%len(s.m)]}
+			s.m = []T{s.modelOrdered()[op.A[0]%len(s.m)]}
 		}
 	case "Shrink":
 		if len(s.m) > op.A[0] {
@@ -280,15 +280,13 @@ func (s *setSubj[T]) Step(op Op, o *Oracle) {
 		case "RemoveOwn":
 			s.counted(o, "Remove", len(vs), func() { s.s.Remove(vs...) })
 		default:
-			// all members but one: whichever Values() lists at a derived position (any order is legal for a hash set)
-			if len(vs) > 0 {
-				keep := vs[op.A[0]%len(vs)]
+			// all members but one (chosen from the model, in the model's canonical order: what is left does not
+			// depend on the order in which a hash set happens to list its members)
+			if len(s.m) > 0 {
+				keep := s.modelOrdered()[op.A[0]%len(s.m)]
 				rest := slices.Clone(vs)
-				rest = slices.Delete(rest, op.A[0]%len(vs), op.A[0]%len(vs)+1)
+				rest = slices.DeleteFunc(rest, func(x T) bool { return s.class(x) == s.class(keep) })
 				s.counted(o, "Remove", len(rest), func() { s.s.Remove(rest...) })
-				if i := s.find(keep); i >= 0 && len(vs) == len(s.m) {
-					s.m = []T{s.m[i]}
-				}
 			}
 		}
 		s.afterCall(vs)
